@@ -284,6 +284,7 @@ type C19Prog struct {
 	WorkerLine int // first marked line of the goroutine's function
 	TailLast   int // last marked line of the tail
 	WorkerEntry int // line of the first statement of the goroutine's function (unmarked)
+	GoLine      int // line of the go statement
 }
 
 // GenC19 draws a sequential marker program: every statement is written as
@@ -446,7 +447,7 @@ func GenC19(tape *Tape) *C19Prog {
 	g.raw("")
 	g.raw("func spawn(x int) int {")
 	g.fline["spawn"] = g.stmt(1, "ch, start := make(chan int), make(chan int)")
-	g.stmt(1, "go worker(x, ch, start)")
+	goLine := g.stmt(1, "go worker(x, ch, start)")
 	g.stmt(1, "start <- 1; return <-ch")
 	g.raw("}")
 	g.raw("")
@@ -512,7 +513,7 @@ func GenC19(tape *Tape) *C19Prog {
 	if hasTail {
 		funcs = append(funcs, "tail")
 	}
-	return &C19Prog{Src: g.b.String(), Marks: g.marks, FLine: g.fline, Funcs: funcs, Tail: tail, WorkerLine: g.fline["worker"], TailLast: tailLast, WorkerEntry: workerEntry}
+	return &C19Prog{Src: g.b.String(), Marks: g.marks, FLine: g.fline, Funcs: funcs, Tail: tail, WorkerLine: g.fline["worker"], TailLast: tailLast, WorkerEntry: workerEntry, GoLine: goLine}
 }
 
 type c19Result struct {
@@ -866,11 +867,21 @@ func RunC19(t *testing.T, tape *Tape) *Outcome {
 		interruptEvery = 1 + tape.Choose(3)
 	}
 	termAt := -1 // none; 0 = Terminate is the first request of the session, before any resume
-	if prog != nil && len(prog.Tail) == 0 && !twoSessions && tape.Choose(5) == 4 {
+	if prog != nil && len(prog.Tail) == 0 && !twoSessions && tape.Choose(3) == 2 {
 		termAt = tape.Choose(9)
+	}
+	// ... or at one of its first stops on the line of the go statement: the
+	// statement the program is stopped at still executes after Terminate
+	termGoIdx := -1
+	if termAt >= 0 && prog != nil && strings.Contains(prog.Src, "= spawn(") && tape.Choose(3) != 0 {
+		termGoIdx = tape.Choose(6)
+		policy = 1 // step-into: a stop before every node of the line
 	}
 	if switchAt > 0 {
 		pname += fmt.Sprintf(" [replace set at break %d: lines %d funcs %v]", switchAt, len(lineBP2), funcBP2)
+	}
+	if termGoIdx >= 0 {
+		pname += fmt.Sprintf(" [at stop %d on the go statement's line]", termGoIdx+1)
 	}
 	if interruptEvery > 0 {
 		pname += fmt.Sprintf(" [Interrupt after every %d resume requests]", interruptEvery)
@@ -932,6 +943,7 @@ func RunC19(t *testing.T, tape *Tape) *Outcome {
 	var wait2Err error
 	waited2, started2, overlap2 := false, false, false
 	stopsSeen, interrupts, terminated := 0, 0, false
+	goStops := 0
 	var inspectPanic any
 	inspected := 0
 	out2Start, ticks2Start := 0, 0
@@ -1071,7 +1083,7 @@ func RunC19(t *testing.T, tape *Tape) *Outcome {
 			gid := 0 // the goroutine to resume: the one that reported the last stop
 		session:
 			for {
-				if termAt >= 0 && stopsSeen >= termAt {
+				if termAt >= 0 && ((termGoIdx < 0 && stopsSeen >= termAt) || (termGoIdx >= 0 && goStops > termGoIdx)) {
 					// end the session while the program is stopped
 					// (Terminate "attempts to terminate the program": it reaches the
 					// goroutines that pass through the debugger, not one blocked in a
@@ -1162,6 +1174,9 @@ func RunC19(t *testing.T, tape *Tape) *Outcome {
 					default:
 						stop = true
 						stopsSeen++
+						if prog != nil && ev.line == prog.GoLine {
+							goStops++
+						}
 						gid = ev.g
 						if ev.reason == interp.DebugEntry && lateBP && validLines == nil {
 							install()
@@ -1329,6 +1344,9 @@ func RunC19(t *testing.T, tape *Tape) *Outcome {
 		// prefix of what plain execution does, and the session ends with exactly
 		// one terminate event
 		o.FaultFired["session-ended-by-Terminate"]++
+		if termGoIdx >= 0 {
+			o.FaultFired["session-ended-by-Terminate-on-the-go-statement-line"]++
+		}
 		// (the OUTPUT is not compared: Terminate cancels the evaluation, and host
 		// functions deferred by the cancelled frames still run while interpreted ones
 		// do not — the C09 finding "deferred-host-call"; the marker trace is exact)
